@@ -19,6 +19,7 @@ from vlib import common as C
 
 sys.path.insert(0, os.path.join(C.ROOT, "tools"))
 import translate_fitness_ops  # noqa: E402
+import fitness_users  # noqa: E402
 from cxx2lean import Refuse  # noqa: E402
 
 SIGN = 1 << 63
@@ -295,6 +296,18 @@ def run(chk, replay=None):
     except Refuse as e:
         broken.append("translator tools/translate_fitness_ops.py refuses the current fitness.tcc / utility.h / "
                       "model_measurements.h: %s" % e)
+
+    # users of the order: call sites found by clang's AST matchers -> GenUsers.lean (theorem users_covered)
+    try:
+        us, rows, uchanged, ucached = fitness_users.emit(os.path.join(C.LEAN, "Vita", "C18", "GenUsers.lean"),
+                                                         os.path.join(C.BUILD, "c18_users"))
+        chk.cov["users"] = ["%s:%d %s uses %s on %s" % (u["file"], u["line"], u["fn"], u["callee"], u["kind"])
+                            for u in us]
+        chk.cov["users_changed_vs_committed"] = bool(uchanged)
+        for u in us:
+            chk.count("user:%s/%s" % (u["callee"], u["kind"]))
+    except Refuse as e:
+        broken.append("tools/fitness_users.py cannot extract the users of the fitness comparisons: %s" % e)
 
     drv_ok = False
     if table_txt is not None:
